@@ -95,4 +95,9 @@ thorough.append(job("c19.optics", secs=300, jobs=4, n=3, d=2))
 for which in (0, 1, 3, 5):
     thorough.append(job("c19.scaler", secs=120, which=which, n=3, d=2, qto=2000))
 
+# remaining serialisable types (FastICA parameters symbolically; FastICA / PCA / PLS models as concrete f64 round trips)
+_more = [job("c19.ica_params", secs=60, allow=("concretised",))] + [job("c19.decomposition_concrete", secs=60, which=w) for w in (0, 1, 2)]
+quick += _more
+thorough += _more
+
 REG = {"C19": {"quick": quick, "thorough": thorough}}
